@@ -61,8 +61,8 @@ Theorem C03_undo_do_every_pseudo_legal_move : forall (zt : zobrist) (s : rep) (m
 Proof. exact undo_do_legal. Qed.
 Print Assumptions C03_undo_do_every_pseudo_legal_move.
 
-(* C03_undo_do_partial: what is NOT covered by these theorems are the piece lists and the two bitboard families (restored
-   up to the permutation that swap-remove introduces); they are tied field by field by the correspondence (op walk). *)
+(* C03_undo_do_partial: the theorems above do not speak about the piece lists and the two bitboard families.  The lists are covered at the end of this
+   file (restored as duplicate-free sets: swap-remove may reorder them); the bitboards are tied field by field by the correspondence (op walk). *)
 
 (* non-vacuity: the start position satisfies base_ok, and 1.e4 meets the hypotheses of C03_undo_do_normal *)
 Example C03_example :
@@ -87,3 +87,33 @@ Proof.
   intros zt p0 ms m Hv Hl Hn Hm. destruct (valid_hyps p0 Hv) as [Hg [Hc Hf]]. exact (game_undo zt p0 ms m Hg Hc Hf Hl Hn Hm).
 Qed.
 Print Assumptions C03_undo_do_along_every_legal_game.
+
+(* ---- the piece lists ----
+   undo_move after do_move keeps the list / key invariant KeyScratch.piece_inv (every list entry is a square holding that piece, once; the
+   lists cover the board; the piece keys are the XOR over the lists), and since the board is restored every one of the twelve piece lists
+   comes back as a duplicate-free enumeration of the same squares: a permutation of what it was (swap-remove reorders; nothing is lost,
+   duplicated or invented). *)
+From CV Require Import Engine.KeyScratch Engine.KeyScratchMove Engine.RepRefineLegal Engine.UndoInv.
+From Coq Require Import Permutation.
+Theorem C03_undo_do_keeps_the_list_invariant :
+  forall (zt : zobrist) (s : rep) (m : move), rep_ok s -> key_inv zt s -> pseudo_legal (rep_abs s) m = true ->
+    piece_inv zt (undo_move zt (fst (do_move zt s (enc m))) (enc m) (snd (do_move zt s (enc m)))).
+Proof. exact undo_do_piece_inv. Qed.
+Print Assumptions C03_undo_do_keeps_the_list_invariant.
+
+Theorem C03_undo_do_restores_the_piece_lists_as_sets :
+  forall (zt : zobrist) (s : rep) (m : move) (pc : N), rep_ok s -> key_inv zt s -> pseudo_legal (rep_abs s) m = true -> (1 <= pc <= 12)%N ->
+    Permutation (nthd (r_lists (undo_move zt (fst (do_move zt s (enc m))) (enc m) (snd (do_move zt s (enc m))))) pc []) (nthd (r_lists s) pc []).
+Proof. exact undo_do_lists. Qed.
+Print Assumptions C03_undo_do_restores_the_piece_lists_as_sets.
+
+Theorem C03_piece_lists_along_every_legal_game :
+  forall (zt : zobrist) (p0 : position) (ms : list move) (m : move) (pc : N),
+    valid_position p0 = true -> legal_line p0 ms = true -> (clock p0 + Z.of_nat (length ms) < 255)%Z -> legal (play p0 ms) m = true -> (1 <= pc <= 12)%N ->
+    let s := play_rep zt (rep_of_position zt p0) ms in
+    let s' := undo_move zt (fst (do_move zt s (enc m))) (enc m) (snd (do_move zt s (enc m))) in
+    Permutation (nthd (r_lists s') pc []) (nthd (r_lists s) pc []) /\ piece_inv zt s'.
+Proof.
+  intros zt p0 ms m pc Hv Hl Hn Hm Hpc. destruct (valid_hyps p0 Hv) as [Hg [Hc Hf]]. exact (game_undo_lists zt p0 ms m pc Hg Hc Hf Hl Hn Hm Hpc).
+Qed.
+Print Assumptions C03_piece_lists_along_every_legal_game.
